@@ -24,10 +24,11 @@ def _record(ctx, binp, outdir, **kw):
     return files, info
 
 
-def _gen_hists(ctx, n, length, seed):
+def _gen_hists(ctx, n, length, seed, condmix=False):
     """F1 (iii): TLC simulation prints request histories as JSON."""
     cfgp = os.path.join(ctx._speccopy(), "DavSim_run.cfg")
-    open(cfgp, "w").write(open(os.path.join(vlib.SPEC, "DavSim.cfg")).read().replace("HistLen = 16", "HistLen = %d" % length))
+    open(cfgp, "w").write(open(os.path.join(vlib.SPEC, "DavSim.cfg")).read().replace("HistLen = 16", "HistLen = %d" % length)
+                          .replace("CondMix = FALSE", "CondMix = %s" % ("TRUE" if condmix else "FALSE")))
     out, st = ctx.tlc("DavSim", "DavSim_run", workers=1, args=["-simulate", "num=%d" % n, "-depth", str(length + 3), "-seed", str(seed)], timeout=1200)
     hs = ctx.emitted(out, "HIST")
     if len(hs) < n // 2:
@@ -167,7 +168,7 @@ def _confirm(ctx, binp, sigs, inputs_of):
     if todo:
         again = _replay_cases(ctx, binp, [c for _, _, c in todo])
         for (s, g, case), got in zip(todo, again):
-            if (ctx.prop + " " + s) not in got:
+            if not any(g2[4:] == s for g2 in got):
                 raise Machinery("reject %r did not reproduce on re-execution (got %r): not reported as a violation" % (s, got[:3]))
             g["record"] = {"case": case, "observed": g["record"]}
     return sigs
@@ -228,8 +229,8 @@ def run(ctx, replay=None):
         obs.extend(files)
         log("[F2] %s: %s" % (name, info))
 
-    def hists(n, length, seed, conc="id"):
-        hp, nh = _gen_hists(ctx, n, length, seed)
+    def hists(n, length, seed, conc="id", condmix=False):
+        hp, nh = _gen_hists(ctx, n, length, seed, condmix)
         files, info = _record(ctx, binp, ctx.path("obs", "hist-%d-%s" % (seed, conc)), mode="hist", hists=hp, shards=vlib.NCPU, conc=conc)
         for f in files:
             inputs[f] = {"hists": hp}
@@ -284,7 +285,7 @@ def run(ctx, replay=None):
             hists(300, 24, ctx.seed)
     elif prop == "C04":
         import checks_dav_c04
-        return checks_dav_c04.run(ctx, binp, trees, env, product, obs, inputs, info_all, _canaries, _confirm)
+        return checks_dav_c04.run(ctx, binp, trees, env, product, hists, obs, inputs, info_all, ntrees)
     elif prop == "C03":
         import checks_dav_c03
         return checks_dav_c03.run(ctx, binp, trees, env, product, obs, inputs, info_all, _canaries, _confirm)
@@ -292,11 +293,12 @@ def run(ctx, replay=None):
     return judge_and_finish(ctx, binp, obs, inputs, info_all, ntrees, nreq)
 
 
-def judge_and_finish(ctx, binp, obs, inputs, info_all, ntrees, nreq, extra_sigs=None, extra_cov=None):
+def judge_and_finish(ctx, binp, obs, inputs, info_all, ntrees, nreq, extra_sigs=None, extra_cov=None, tags=None):
     prop = ctx.prop
+    tags = tags or (prop,)
     rej, total = ctx.judge("DavJudge", obs)
     ctx.cov["judged_events"] = total
-    mine = [(f, ln, s[len(prop) + 1:]) for f, ln, s in rej if s.startswith(prop + " ")]
+    mine = [(f, ln, s[4:]) for f, ln, s in rej if s[:3] in tags]
     others = len(rej) - len(mine)
     rejected_lines = {(f, ln) for f, ln, _ in rej}
     _canaries(ctx, obs, rejected_lines)
